@@ -7,7 +7,8 @@ meta = json.load(open(os.path.join(V, "tools", "manifest_meta.json")))
 props = [json.loads(l)["id"] for l in open(os.path.join(V, "properties.jsonl"))]
 checks = []; na = []
 for pid in props:
-    m = meta["checks"].get(pid)
+    mp = os.path.join(V, "tools", "meta", pid + ".json")
+    m = json.load(open(mp)) if os.path.exists(mp) else None
     if not m:
         na.append({"property_id": pid, "reason": meta["not_applicable"].get(pid, "no check has been built for this property yet")})
         continue
